@@ -2166,3 +2166,203 @@ func c13Round4(c *Ctx, ix *Index) {
 		c.Check(len(start) > 0 && hit == nil, "C13.hops", fname(fn)+":committing a root that already exists writes nothing", site, "no database write is reachable on the root-exists path (outside chunk import)", "badger's Commit writes to the database on the path where the root already exists: a second write log stored for the same end root under another start root gives the multi-hop search sibling paths, and a served two-hop log can combine hops of different paths — it does not reproduce the announced end root")
 	}
 }
+
+// round-4 rules written after seeds C14r4/11, C18r4/11, C18r4/12 and C20r4/12 were missed.
+
+// c14SortComparators: a comparator handed to sort.Slice/SliceStable is called with positions of the slice being
+// sorted, which the sort permutes as it goes: the comparator indexes nothing but that very slice with its two
+// parameters (a parallel slice prepared beforehand is not permuted with it and goes out of step after the first swap).
+func c14SortComparators(c *Ctx) {
+	const rule = "C14.order"
+	n := 0
+	for _, fn := range c.P.ModFuncs {
+		if fn.Blocks == nil || !strings.HasPrefix(short(fpkgPath(fn)), "consensus/cometbft/apps/") {
+			continue
+		}
+		for _, call := range callsIn(fn) {
+			nm := calleeName(call)
+			if nm != "sort.Slice" && nm != "sort.SliceStable" {
+				continue
+			}
+			args := call.Common().Args
+			sorted := args[0]
+			if mi, ok := sorted.(*ssa.MakeInterface); ok {
+				sorted = mi.X
+			}
+			mc, ok := args[1].(*ssa.MakeClosure)
+			if !ok {
+				continue
+			}
+			less := mc.Fn.(*ssa.Function)
+			if len(less.Params) != 2 {
+				continue
+			}
+			n++
+			c.Analysed[fname(less)] = true
+			bad := ""
+			site := c.P.InstrPos(call)
+			for _, b := range less.Blocks {
+				for _, in := range b.Instrs {
+					var x, idx ssa.Value
+					switch v := in.(type) {
+					case *ssa.IndexAddr:
+						x, idx = v.X, v.Index
+					case *ssa.Index:
+						x, idx = v.X, v.Index
+					default:
+						continue
+					}
+					if idx != ssa.Value(less.Params[0]) && idx != ssa.Value(less.Params[1]) {
+						continue
+					}
+					// the indexed slice must be the captured variable bound to the sorted slice
+					okSlice := false
+					if ld, isLoad := x.(*ssa.UnOp); isLoad {
+						if fv, isFV := ld.X.(*ssa.FreeVar); isFV {
+							for k, b := range mc.Bindings {
+								if less.FreeVars[k] == fv {
+									// the binding is the address of the local that holds the sorted slice
+									if sl, isLd := sorted.(*ssa.UnOp); isLd && sl.X == b {
+										okSlice = true
+									}
+									if b == sorted {
+										okSlice = true
+									}
+								}
+							}
+						}
+					}
+					if fv, isFV := x.(*ssa.FreeVar); isFV {
+						for k, b := range mc.Bindings {
+							if less.FreeVars[k] == fv && b == sorted {
+								okSlice = true
+							}
+						}
+					}
+					if !okSlice {
+						bad = vstr(x)
+						site = c.P.InstrPos(in)
+					}
+				}
+			}
+			c.Check(bad == "", rule, fname(less)+":the comparator indexes only the slice being sorted", site, "every use of the comparator's positions indexes the sorted slice", "the comparator indexes "+bad+" with the positions it is given, which is not the slice being sorted: the sort permutes only its own slice, so after the first swap the comparator compares the wrong elements — the result is deterministic but not in the intended order (e.g. validators are no longer picked in descending stake order)")
+		}
+	}
+	c.Floor(rule, n, 3, "sort.Slice/SliceStable comparators in the consensus applications")
+}
+
+func c18Round4(c *Ctx) {
+	const pk = "common/sgx/pcs"
+	// seed 11: TCB info is accepted only for the TEE type it was issued for: on the SGX arm the identifier is "SGX", on
+	// the TDX arm "TDX" (SGX collateral for a TDX quote skips every TDX module and component check).
+	if fn := c.needFn("C18.must", pk+".(*TCBInfo).validate"); fn != nil {
+		c.Analysed[fname(fn)] = true
+		for _, pr := range [][3]string{{"0", "SGX", "SGX"}, {"129", "TDX", "TDX"}} {
+			start := HeldEdges(fn, `^param:teeType == `+pr[0]+`$`)
+			cut := NewCut().AddEdges(HeldEdges(fn, `\.ID == "`+pr[1]+`"$`)...)
+			var hit ssa.Instruction
+			if len(start) > 0 {
+				hit = Reach(fn, nil, start, anyOf(SuccessReturns(fn)), cut)
+			}
+			c.Check(len(start) > 0 && len(cut.Edges) > 0 && hit == nil, "C18.must", fname(fn)+":TEE type "+pr[2]+"⇒TCB info identifier "+pr[1], c.P.Pos(fn.Pos()), "success on this TEE type's arm passes the identifier test", "TCB info validation can succeed for a "+pr[2]+" quote without the TCB info identifier having been compared with \""+pr[1]+"\": collateral issued for the other TEE type is accepted (SGX TCB info for a TDX quote skips all TDX module and component checks)")
+		}
+	}
+	// seed 12: the policy used when none is configured does not allow TDX: nothing that Quote.Verify builds for a nil
+	// policy (itself or through a constructor it calls) sets the TDX part of a QuotePolicy.
+	if fn := c.needFn("C18.must", pk+".(*Quote).Verify"); fn != nil {
+		c.Analysed[fname(fn)] = true
+		fns := []*ssa.Function{fn}
+		for _, call := range callsIn(fn) {
+			if callee := call.Common().StaticCallee(); callee != nil && callee.Blocks != nil && inModule(fpkgPath(callee)) {
+				res := callee.Signature.Results()
+				if res.Len() >= 1 && namedOf(derefType(res.At(0).Type())) == pk+".QuotePolicy" {
+					fns = append(fns, callee)
+				}
+			}
+		}
+		bad := ""
+		site := c.P.Pos(fn.Pos())
+		for _, f := range fns {
+			for _, b := range f.Blocks {
+				for _, in := range b.Instrs {
+					st, ok := in.(*ssa.Store)
+					if !ok {
+						continue
+					}
+					if fa, ok := st.Addr.(*ssa.FieldAddr); ok && namedOf(derefType(fa.X.Type())) == pk+".QuotePolicy" && fieldName(fa.X.Type(), fa.Field) == "TDX" && !isNilConst(st.Val) {
+						bad = fname(f)
+						site = c.P.InstrPos(in)
+					}
+				}
+			}
+		}
+		c.Check(bad == "", "C18.must", fname(fn)+":the default policy (none configured) does not allow TDX", site, "neither Verify nor a policy constructor it calls sets QuotePolicy.TDX", "the quote policy built for a nil policy sets its TDX part (in "+bad+"): with no PCS policy in effect a TDX quote is accepted although the policy does not allow the TDX TEE type")
+	}
+}
+
+func c20Round4(c *Ctx) {
+	// seed 12: mainQueue.Add moves the sender's queue forward to the sender's state sequence number BEFORE it adds the
+	// transaction (and before the capacity trim inside add): transactions that expired silently are gone first, so they
+	// neither count against the capacity nor stay schedulable when the add is rejected.
+	if fn := c.needFn("C20.ready", "runtime/txpool.(*mainQueue).Add"); fn != nil {
+		c.Analysed[fname(fn)] = true
+		fwd := CallsTo(fn, "scheduler.forward", "runtime/txpool.(*mainQueueScheduler).forward", "")
+		add := CallsTo(fn, "scheduler.add", "runtime/txpool.(*mainQueueScheduler).add", "")
+		var hit ssa.Instruction
+		if !add.Empty() {
+			hit = Reach(fn, nil, nil, anyOf(add.Ins), NewCut().AddInstr(fwd.Ins...))
+		}
+		c.Check(!fwd.Empty() && !add.Empty() && hit == nil, "C20.ready", fname(fn)+":the sender's queue is forwarded before the transaction is added", c.P.Pos(fn.Pos()), "every path to scheduler.add passes scheduler.forward", "mainQueue.Add adds (and trims to capacity) before it forwards the sender's queue to the reported state sequence number: silently expired transactions still count against the capacity (a valid transaction is evicted or the new one rejected as underpriced) and stay pooled and schedulable when the add is rejected")
+	}
+}
+
+// c14VRFFallback (F67): the validator shuffle uses the submitted VRF proofs only when they can fill the minimum
+// validator set. Only MaxValidatorsPerEntity nodes of an entity can be elected and nodes without a proof are dropped,
+// so the number compared with MinValidators counts a node only under the per-entity cap; counting every node with a
+// proof lets the election fail ("insufficient validators", a chain halt) although the entropy fallback would succeed.
+func c14VRFFallback(c *Ctx) {
+	fn := c.needFn("C14.entropy", "consensus/cometbft/apps/scheduler.shuffleValidators")
+	if fn == nil {
+		return
+	}
+	c.Analysed[fname(fn)] = true
+	inst := fname(fn) + ":the proofs counted against MinValidators are electable ones (per-entity cap)"
+	var counter ssa.Value
+	for _, b := range fn.Blocks {
+		iff := lastIfOf(b)
+		if iff == nil {
+			continue
+		}
+		bo, ok := iff.Cond.(*ssa.BinOp)
+		if !ok {
+			continue
+		}
+		for _, pr := range [][2]ssa.Value{{bo.X, bo.Y}, {bo.Y, bo.X}} {
+			if loadsField(pr[1], "MinValidators") {
+				counter = pr[0]
+			}
+		}
+	}
+	if counter == nil {
+		c.Fail("C14.entropy", inst, c.P.Pos(fn.Pos()), "the comparison with MinValidators was not found in shuffleValidators (unresolved anchor)")
+		return
+	}
+	ok, n := true, 0
+	for _, leaf := range phiLeaves(counter, map[ssa.Value]bool{}) {
+		add, isAdd := leaf.(*ssa.BinOp)
+		if !isAdd || add.Op != token.ADD {
+			continue
+		}
+		n++
+		capped := false
+		for _, h := range heldCondVals(add) {
+			if strings.Contains(vstr(h.Cond), "MaxValidatorsPerEntity") {
+				capped = true
+			}
+		}
+		if !capped {
+			ok = false
+		}
+	}
+	c.Check(ok && n > 0, "C14.entropy", inst, c.P.Pos(fn.Pos()), "the counter is incremented only under a test against MaxValidatorsPerEntity", "the number of proofs compared with MinValidators counts every node with a proof, not the nodes that can be elected (at most MaxValidatorsPerEntity per entity): when one entity's nodes submitted the proofs the entropy fallback is not taken, too few validators are elected and the election fails — the scheduler's BeginBlock halts the chain although eligible validators exist")
+}
